@@ -45,18 +45,18 @@ type EntrySpec struct {
 }
 
 type UnpackCase struct {
-	Reuse   bool        `json:"reuse,omitempty"` // the Packer value has been used on another tree before
-	WarmDir string      `json:"warm_dir,omitempty"` // ... namely this one (outside the arena)
-	Allow   []string    `json:"allow,omitempty"`    // AllowSymlinkTarget entries of the Packer (relative ones are relative to dst)
-	WriteLimit int      `json:"write_limit,omitempty"` // files in dst cannot grow beyond this many bytes (RLIMIT_FSIZE in the child)
-	Init    *TNode      `json:"init"` // the whole root
-	Dst     string      `json:"dst"`
-	Entries []EntrySpec `json:"entries"`
-	Format  string      `json:"format"` // ustar | pax | gnu
-	Uid     int         `json:"uid"`
-	FailAt  int         `json:"fail_at"`
-	Trunc   bool        `json:"trunc,omitempty"`
-	Hostile bool        `json:"hostile"`
+	Reuse      bool        `json:"reuse,omitempty"`       // the Packer value has been used on another tree before
+	WarmDir    string      `json:"warm_dir,omitempty"`    // ... namely this one (outside the arena)
+	Allow      []string    `json:"allow,omitempty"`       // AllowSymlinkTarget entries of the Packer (relative ones are relative to dst)
+	WriteLimit int         `json:"write_limit,omitempty"` // files in dst cannot grow beyond this many bytes (RLIMIT_FSIZE in the child)
+	Init       *TNode      `json:"init"`                  // the whole root
+	Dst        string      `json:"dst"`
+	Entries    []EntrySpec `json:"entries"`
+	Format     string      `json:"format"` // ustar | pax | gnu
+	Uid        int         `json:"uid"`
+	FailAt     int         `json:"fail_at"`
+	Trunc      bool        `json:"trunc,omitempty"`
+	Hostile    bool        `json:"hostile"`
 }
 
 func buildSlug(c *UnpackCase) ([]byte, error) {
@@ -148,8 +148,8 @@ func (f *faultReader) Read(p []byte) (int, error) {
 }
 
 type faultWriter struct {
-	buf    bytes.Buffer
-	failAt int
+	buf     bytes.Buffer
+	failAt  int
 	onFirst func() // runs once, at the first Write: something else happening while Pack is at work
 }
 
@@ -1174,7 +1174,29 @@ func corpusUnpack() []*UnpackCase {
 		c.Hostile = false
 		return c
 	}
-	return []*UnpackCase{
+	// deterministic sweep, run on every invocation whatever the seed: every known link target text at two depths,
+	// alone, written through, and followed by a file of the same name; every known entry name as a file, as a
+	// directory, and after a link to the destination itself
+	var sweep []*UnpackCase
+	for _, t := range hostileTargets {
+		sweep = append(sweep,
+			mk(nil, lnk("l", t)),
+			mk(nil, lnk("l", t), reg("l/x", "through")),
+			mk(nil, lnk("a/l", t), reg("a/l/x", "through")),
+			mk(nil, lnk("l", t), reg("l", "over")),
+			mk(nil, lnk("l2", "."), lnk("l", t), reg("l/x", "through")))
+	}
+	for _, n := range hostileNames {
+		if n == "" {
+			continue
+		}
+		sweep = append(sweep, mk(nil, reg(strings.TrimSuffix(n, "/")+"", "body")), mk(nil, lnk("l", "."), lnk("l2", "l/.."), reg(strings.TrimSuffix(n, "/"), "body")))
+		if !strings.HasSuffix(n, "/") {
+			n += "/"
+		}
+		sweep = append(sweep, mk(nil, dir(n)))
+	}
+	return append(sweep, []*UnpackCase{
 		mk(nil, reg("../dst-evil/x", "pwned")),                                 // D1: sibling prefix
 		mk(nil, lnk("l", "../dst-evil"), reg("l/x", "through")),                // D1 on link target
 		mk(nil, lnk("l", "."), reg("nx/../l/../../victim", "x")),               // D2 flavour
@@ -1184,5 +1206,5 @@ func corpusUnpack() []*UnpackCase {
 		good(dir("empty/")),                                                    // D4: empty directory
 		good(dir("d/"), reg("d/f", "x"), dir("e/")),                            //
 		good(lnk("k", "c.txt"), reg("k", "via-link")),                          // D3 benign form: file entry after a link of the same name
-	}
+	}...)
 }
